@@ -653,7 +653,7 @@ pub fn package_with_function_rule(rule: AccessRule) -> PackageDefinition {
 
 pub fn new_probe_sim() -> (PSim, Probe) {
     let probe = Probe::new();
-    (LedgerSimulatorBuilder::new().with_custom_extension(ProbeExt(probe.clone())).without_kernel_trace().build(), probe)
+    (LedgerSimulatorBuilder::new().with_custom_extension(ProbeExt(probe.clone())).without_kernel_trace().without_receipt_substate_check().build(), probe)
 }
 
 pub fn probe_sim_from(snap: &Snap) -> (PSim, Probe) {
